@@ -67,3 +67,22 @@ fn native_lgb_damaged_nopanic() {
     }
     s.finish("native_lgb_damaged_nopanic");
 }
+
+//@unit props=C16 label=B tier=quick native=1 fn=layer::LayerGroup::{write_to_buffer,from_existing} bound="by execution: layer groups without layers: 7 layer group ids (0, 1, 261, -1, i32::MAX, i32::MIN, 65536) x 8 ASCII names of 1..40 bytes x file ids LGB1 and 0x12345678, chunk ids LGP1 and 0"
+//@desc an empty layer group written by the library parses back to the same file id, chunk id, layer group id and name, with no layers
+#[test]
+fn native_lgb_empty_roundtrip() {
+    use crate::layer::{LayerChunk, LayerGroup};
+    let mut cases = 0u64;
+    let names: Vec<String> = vec!["a".into(), "PlanLive".into(), "bg_common".into(), "Plan Event 01".into(), "x".repeat(31), "y".repeat(32), "z".repeat(33), "n".repeat(40)];
+    for id in [0i32, 1, 261, -1, i32::MAX, i32::MIN, 65536] { for name in names.iter() { for (file_id, chunk_id) in [(u32::from_le_bytes(*b"LGB1"), u32::from_le_bytes(*b"LGP1")), (0x12345678, 0)] {
+        let g = LayerGroup { file_id, chunks: vec![LayerChunk { chunk_id, layer_group_id: id, name: name.clone(), layers: Vec::new() }] };
+        let b = g.write_to_buffer().expect("write");
+        let p = LayerGroup::from_existing(&b).expect("a written layer group parses");
+        assert_eq!((p.file_id, p.chunks.len()), (file_id, 1), "file id and chunk count");
+        let c = &p.chunks[0];
+        assert_eq!((c.chunk_id, c.layer_group_id, &c.name, c.layers.len()), (chunk_id, id, name, 0), "chunk id, layer group id, name read back");
+        cases += 1;
+    } } }
+    println!("NATIVE native_lgb_empty_roundtrip cases={cases}");
+}
